@@ -32,10 +32,34 @@ func (m memFS) Open(name string) (fs.File, error) {
 }
 func (m memFS) ReadDir(name string) ([]fs.DirEntry, error) { return nil, fs.ErrNotExist }
 
+// tailBuffer keeps only the last part of what is written: a call may legitimately print gigabytes (a padded
+// binary in raw mode); the real fq streams that to the terminal, the harness must not hold it in memory.
+type tailBuffer struct {
+	b []byte
+	n int64
+}
+
+const tailKeep = 1 << 18
+
+func (t *tailBuffer) Write(p []byte) (int, error) {
+	t.n += int64(len(p))
+	if len(p) >= tailKeep {
+		t.b = append(t.b[:0], p[len(p)-tailKeep:]...)
+		return len(p), nil
+	}
+	t.b = append(t.b, p...)
+	if len(t.b) > 2*tailKeep {
+		t.b = append(t.b[:0], t.b[len(t.b)-tailKeep:]...)
+	}
+	return len(p), nil
+}
+func (t *tailBuffer) Bytes() []byte  { return t.b }
+func (t *tailBuffer) String() string { return string(t.b) }
+
 type vOS struct {
 	args           []string
 	stdin          []byte
-	stdout, stderr *bytes.Buffer
+	stdout, stderr *tailBuffer
 	fsys           fs.FS
 	env            []string
 	tty            bool
